@@ -36,11 +36,49 @@ theorem takeCurrent_spec : T src Tr takeCurrent (fun _ _ => True) := by
   unfold takeCurrent
   hoare
 
+theorem errorAt_scan_loc (s2 : Scanner) (pos : Nat) (reason : String) (e : ScanErr)
+    (h : s2.errorAt pos reason = .scan e) : s2.lineInfo pos = .ok e.loc := by
+  unfold Scanner.errorAt at h
+  cases hl : s2.lineInfo pos with
+  | ok loc =>
+    rw [hl] at h
+    simp only [SErr.scan.injEq] at h
+    rw [← h]
+  | error x =>
+    obtain ⟨loc, hl'⟩ := Gosyn.Props.C16.lineInfo_total s2.profile s2.lines pos
+    have : s2.lineInfo pos = .ok loc := hl'
+    rw [this] at hl; cases hl
+
+/-- a scanner error carries the location `line_info` computes on the table the scanner is left with -/
+theorem nextToken_error_loc (sc : Scanner) (e : ScanErr) (h : sc.nextToken.1 = .error (.scan e)) :
+    ∃ pos, sc.nextToken.2.lineInfo pos = .ok e.loc := by
+  unfold Scanner.nextToken at h ⊢
+  split
+  · rename_i hc; rw [if_pos hc] at h; cases h
+  · rename_i hc
+    rw [if_neg hc] at h
+    simp only at h ⊢
+    split
+    · rename_i h2; rw [if_pos h2] at h; cases h
+    · rename_i h2
+      rw [if_neg h2] at h
+      split
+      · rename_i f hf
+        rw [hf] at h
+        simp only at h ⊢
+        split at h
+        · cases h
+        · simp only [Except.error.injEq] at h
+          exact ⟨_, errorAt_scan_loc _ _ _ _ h⟩
+      · rename_i tok n hs
+        rw [hs] at h
+        cases h
+
 /-- `scan_next` from any state over `src`: afterwards the invariant holds -/
 theorem scanNext_establishes (s : PState) (hs : Inv0 src s) :
     match scanNext s with
     | (.ok a, s') => Inv src s' ∧ CommentFacts a s'
-    | (.error e, s') => isPanic e = false ∧ Inv0 src s' := by
+    | (.error e, s') => ErrOK e s' ∧ Inv0 src s' := by
   have e : scanNext s = liftS s.scan.nextToken.1
       { s with prevPos := s.scan.preback, scan := s.scan.nextToken.2, steps := s.steps + 1 } := rfl
   rw [e]
@@ -61,7 +99,9 @@ theorem scanNext_establishes (s : PState) (hs : Inv0 src s) :
       exact ⟨fun c hc => Nat.lt_of_lt_of_le (hs.below c hc) h1, h2⟩
   | error er =>
     cases er with
-    | scan _ => exact ⟨rfl, h0⟩
+    | scan e' =>
+      refine ⟨?_, h0⟩
+      exact nextToken_error_loc s.scan e' hr
     | panic site => exact absurd hr (Gosyn.Props.C01.nextToken_no_panic s.scan site)
 
 theorem scanNext_spec : T src Tr scanNext (fun a s => CommentFacts a s) := by
@@ -107,7 +147,7 @@ theorem commentLoop_spec : ∀ (fuel line : Nat) (trailing : Option Nat) (posTok
     T src (CommentFacts posTok) (commentLoop fuel line trailing posTok) (fun _ _ => True) := by
   intro fuel
   induction fuel with
-  | zero => intro line trailing posTok; unfold commentLoop; exact T.throw _ rfl
+  | zero => intro line trailing posTok; unfold commentLoop; exact T.throw _ (fun _ _ => trivial)
   | succ n ih =>
     intro line trailing posTok
     unfold commentLoop
@@ -164,7 +204,7 @@ theorem currentPos_spec {R : PState → Prop} : T src R currentPos (fun _ s => R
 theorem goback_establishes (prev : Nat × Bool) (hg : GoodMark src prev) (s : PState) (hs : Inv0 src s) :
     match goback prev s with
     | (.ok _, s') => Inv src s'
-    | (.error e, s') => isPanic e = false ∧ Inv0 src s' := by
+    | (.error e, s') => ErrOK e s' ∧ Inv0 src s' := by
   have hsrc : (s.scan.goback prev).src = src := hs.src_eq
   obtain ⟨v, hv⟩ := hg (s.scan.goback prev) hsrc rfl rfl
   let s1 : PState := { s with
@@ -201,13 +241,13 @@ theorem goback_establishes (prev : Nat × Bool) (hg : GoodMark src prev) (s : PS
   exact hest.1.congr rfl rfl rfl
 
 /-- after a caught error: going back to a good mark re-establishes the invariant -/
-theorem T0.goback_bind {β} (prev : Nat × Bool) (hg : GoodMark src prev) {k : Unit → P β} {Q : β → PState → Prop}
-    (hk : T src Tr (k ()) Q) : T0 src (goback prev >>= k) Q := by
-  intro s hs
+theorem T0.goback_bind {β} {R : PState → Prop} (prev : Nat × Bool) (hg : GoodMark src prev) {k : Unit → P β}
+    {Q : β → PState → Prop} (hk : T src Tr (k ()) Q) : T0 src R (goback prev >>= k) Q := by
+  intro s hs _
   have := goback_establishes prev hg s hs
   show match (Bind.bind (goback prev) k) s with
     | (.ok a, s') => Inv src s' ∧ Q a s'
-    | (.error e, s') => isPanic e = false ∧ Inv0 src s'
+    | (.error e, s') => ErrOK e s' ∧ Inv0 src s'
   simp only [Bind.bind]
   cases hgb : goback prev s with
   | mk r s1 =>
@@ -217,18 +257,19 @@ theorem T0.goback_bind {β} (prev : Nat × Bool) (hg : GoodMark src prev) {k : U
     | ok a => exact hk s1 this trivial
 
 /-- after a caught error: a step that does not look at the mark (level bookkeeping), then an error -/
-theorem T0.modify_throw {β} (f : PState → PState) (hf : ∀ s, (f s).scan = s.scan ∧ (f s).comments = s.comments)
-    (e : PErr) (he : isPanic e = false)
-    {Q : β → PState → Prop} : T0 src (P.modify f >>= fun _ => (P.throw e : P β)) Q := by
-  intro s hs
+theorem T0.modify_throw {β} {R : PState → Prop} (f : PState → PState)
+    (hf : ∀ s, (f s).scan = s.scan ∧ (f s).comments = s.comments)
+    (e : PErr) (he : ∀ s, R s → ErrOK e s)
+    {Q : β → PState → Prop} : T0 src R (P.modify f >>= fun _ => (P.throw e : P β)) Q := by
+  intro s hs hr
   show match (Bind.bind (P.modify f) fun _ => (P.throw e : P β)) s with
     | (.ok a, s') => Inv src s' ∧ Q a s'
-    | (.error e, s') => isPanic e = false ∧ Inv0 src s'
+    | (.error e, s') => ErrOK e s' ∧ Inv0 src s'
   simp only [Bind.bind, P.modify, P.throw]
-  exact ⟨he, hs.congr (hf s).1 (hf s).2⟩
+  exact ⟨(he s hr).congr (hf s).1, hs.congr (hf s).1 (hf s).2⟩
 
 macro_rules | `(tactic| hstep0) => `(tactic| (with_reducible refine T0.goback_bind _ (by assumption) ?_))
-macro_rules | `(tactic| hstep0) => `(tactic| (unfold decExprLevel; refine T0.modify_throw _ ?_ _ ?_; (intro _; exact ⟨rfl, rfl⟩); simp_all))
+macro_rules | `(tactic| hstep0) => `(tactic| (unfold decExprLevel; refine T0.modify_throw _ ?_ _ ?_; (intro _; exact ⟨rfl, rfl⟩); (intros; simp_all)))
 
 theorem goback_spec (prev : Nat × Bool) (hg : GoodMark src prev) : T src Tr (goback prev) (fun _ _ => True) := by
   intro s hi _
@@ -291,7 +332,7 @@ theorem identifierListLoop_spec : ∀ (fuel : Nat) (acc : List Ident), acc ≠ [
     T src Tr (identifierListLoop fuel acc) (fun l _ => l ≠ []) := by
   intro fuel
   induction fuel with
-  | zero => intro acc _; unfold identifierListLoop; exact T.throw _ rfl
+  | zero => intro acc _; unfold identifierListLoop; exact T.throw _ (fun _ _ => trivial)
   | succ n ih =>
     intro acc hacc
     unfold identifierListLoop
